@@ -69,6 +69,13 @@ CHECKS = {
         note="Kernel only. NOT decided: that the generated flex scanner calls YY_USER_ACTION once per token and tracker.newline once per consumed line break (only the YY_USER_ACTION text is checked); XPath construction and per-block setPath calls in xmlreader.cpp (libxml2); that the type checker attaches the causing node's position to each diagnostic; the fault-injection half of the statement. Route C for find() rewrites the vector to pointer+size and the reference result to an index (rewrites logged). Part B: vectors of capacity 8 with <= 6 symbolic entries; block lemma bounded (<= 4 steps). tracker.position is assumed not to wrap (C15).",
         technique="CBMC function contracts + loop contracts (invariant, decreases) enforced by goto-instrument --dfcc on the C extraction of find(); assume/call/assert harnesses on the sliced C++ members; one bounded composition lemma; native replay through parse_XML_buffer",
     ),
+    "C15": dict(
+        category="proof",
+        text="Kernel of the statement: per-call re-initialisation. The REAL parser globals and utap_lex (the %code block of parser.y), the REAL setStartToken, the REAL static entries parse_XTA(builder, newxta, part, xpath) / parseProperty(builder, xpath), the REAL PositionTracker::setPath and the REAL enums xta_part_t / syntax_t are executed with EVERY parser/lexer global holding an arbitrary value (= any history): the state the grammar is entered with (syntax mode, pending start token, current builder, tracker line/offset/path) is a function of the arguments only; setStartToken is total over xta_part_t x bool (2-run equality from two arbitrary histories), always leaves a token that the grammar's start production accepts (token list and start production generated from parser.y on every run), and distinct parts select distinct tokens; utap_lex delivers the pending start token exactly once; the entry's result is the grammar's verdict; the public wrappers are checked textually to add only buffer management. The one observable history dependence inside the kernel - the 32-bit global position counter wrapping - is stated as an obligation, fails exactly in the recorded class and is reported as known finding C15-KF1 (natively replayed by seeding UTAP::tracker.position).",
+        design_ref="DESIGN.md section 4, C15",
+        note="Kernel only: the whole-history statement (each call's full result equals the fresh-process result) is NOT decided. Outside the kernel and stated as assumptions: flex state (YY_START, buffer stack), bison's internal state, exceptions thrown from inside utap_parse, rootTransId/types (not re-initialised by the prologues; the grammar writes them before use), errno. utap_parse and lexer_flex are stubs.",
+        technique="sliced real prologue functions executed on arbitrary global state (havocked history) in CBMC, assume/call/assert harnesses, 2-run equality for history independence; generated token/start-production tables; native replay with a seeded position counter",
+    ),
 }
 
 NOT_APPLICABLE = {
